@@ -475,8 +475,8 @@ var gridSamples = []string{
 	"f3ff8000000000000", "f4000000000000000", "f7ff8000000000001", "f8000000000000000", "f7e37e43c8800759c", "f43e0000000000000",
 	"s-", "s97", "y97", "c97", "b1", "b0", "n", "r-", "r1.2.255", "t0", "t1600000000", "p",
 	"A0", "A2 i1 i2", "A1 s97", "A1 n", "A1 f3ff8000000000000",
-	"H9:0:hash", "H9:1:hash k97 s98", "H9:1:hash k97 f3ff8000000000000", "H9:1:hash k97 i2", "H9:1:hash ki1 f4004000000000000", "H9:1:hash k97 H8:0:vleaf",
-	"H9:0:vleaf", "H9:1:vleaf k105 i4", "H9:0:vnode", "H9:0:vemb", "H9:0:hornet", "H9:0:hellcat", "H9:0:snoopy", "H9:0:weather", "H9:0:plane", "H9:0:persondemo", "H9:0:nosuch",
+	"H900:0:hash", "H900:1:hash k97 s98", "H900:1:hash k97 f3ff8000000000000", "H900:1:hash k97 i2", "H900:1:hash k97 i9007199254740993", "H900:1:hash ki1 f4004000000000000", "H900:1:hash k97 H901:0:vleaf",
+	"H900:0:vleaf", "H900:1:vleaf k105 i4", "H900:0:vnode", "H900:0:vemb", "H900:0:hornet", "H900:0:hellcat", "H900:0:snoopy", "H900:0:weather", "H900:0:plane", "H900:0:persondemo", "H900:0:nosuch",
 }
 
 func rawTerm(s string) *tnode { return atom(s) } // pre-rendered token sequence
@@ -507,6 +507,11 @@ func togoGen(g *Gen) {
 					g.Count("grid skipped record-into-string-field")
 					continue
 				}
+				if ft.Kind() == reflect.Interface && ft.NumMethod() == 0 && strings.HasSuffix(s, ":nosuch") {
+					// a record type without a Go struct is stored as a *SexpHash: outside the property
+					g.Count("grid skipped script-only-record-into-interface{}")
+					continue
+				}
 				n := &tnode{tok: "H", tn: r.name, id: 1, keys: []string{"k" + codes([]byte(k))}, kids: []*tnode{rawTerm(s)}}
 				g.Emit("%s", togoLine("conv", r, n, "-"))
 				g.Count("grid " + tyExpr(ft) + " <- " + s[:1])
@@ -522,7 +527,7 @@ func togoGen(g *Gen) {
 	// 2. generated values
 	nConv, nEcho, nBad := 1500, 600, 900
 	if g.Thorough() {
-		nConv, nEcho, nBad = 40000, 15000, 25000
+		nConv, nEcho, nBad = 12000, 4000, 6000
 	}
 	for i := 0; i < nConv+nEcho+nBad; i++ {
 		r := &togoRoots[g.Rng.Intn(len(togoRoots))]
@@ -582,7 +587,17 @@ func togoGen(g *Gen) {
 			var recs []*tnode
 			term.records(&recs)
 			victim := recs[g.Rng.Intn(len(recs))]
-			switch g.Rng.Intn(4) {
+			mode := "conv"
+			if g.Rng.Intn(4) == 0 && !hasNonZeroTime(root.Elem()) {
+				mode = "echo"
+			}
+			kind := g.Rng.Intn(4)
+			if kind == 2 && victim == recs[0] && mode == "conv" {
+				// (togo r) takes the top object from the record's own type: retyping the top
+				// record just converts another type
+				kind = 0
+			}
+			switch kind {
 			case 0:
 				victim.keys = append(victim.keys, "k"+codes([]byte([]string{"zz", "nosuch", "ID", "Cry2", "x"}[g.Rng.Intn(5)])))
 				victim.kids = append(victim.kids, atom("i1"))
@@ -598,21 +613,33 @@ func togoGen(g *Gen) {
 					g.Count("bad replaced-value")
 				}
 			case 2:
-				victim.tn = []string{"vleaf", "vnode", "hornet", "weather", "nosuch", "hash"}[g.Rng.Intn(6)]
+				names := []string{"hash"}
+				if victim == recs[0] {
+					names = append(names, "nosuch")
+				}
+				structs, _ := worldOf(reflect.TypeOf(r.mk()).Elem())
+				for _, s := range structs {
+					if n := togoRegOfStruct[s]; n != "" && n != victim.tn {
+						names = append(names, n)
+					}
+				}
+				victim.tn = names[g.Rng.Intn(len(names))]
 				g.Count("bad retyped-record")
 			default:
 				victim.keys = append(victim.keys, "ki7")
 				victim.kids = append(victim.kids, atom("i1"))
 				g.Count("bad int-key")
 			}
-			mode := "conv"
-			if g.Rng.Intn(4) == 0 && !hasNonZeroTime(root.Elem()) {
-				mode = "echo"
-			}
 			var chk []string
 			term.emit(&chk)
 			if strings.Contains(strings.Join(chk, " "), " H") && recordIntoStringPossible(chk) {
 				g.Count("bad skipped (record may land in a string field)")
+				continue
+			}
+			vp := &termParser{toks: chk, recs: map[int]*zygo.SexpHash{}}
+			quiet(func() { vp.term() })
+			if vp.err != "" {
+				g.Count("bad skipped (dangling record reference)")
 				continue
 			}
 			g.Emit("%s", togoLine(mode, r, term, "-"))
@@ -659,7 +686,7 @@ func hasNonZeroTime(v reflect.Value) bool {
 // string-typed field (printed text, outside the model)
 func recordIntoStringPossible(toks []string) bool {
 	for i, t := range toks {
-		if i > 0 && strings.HasPrefix(t, "H9:") && !strings.HasSuffix(t, ":hash") {
+		if i > 0 && strings.HasPrefix(t, "H900:") && !strings.HasSuffix(t, ":hash") {
 			return true
 		}
 	}
